@@ -528,9 +528,15 @@ class _Race(object):
                 self.armed -= 1
                 self.depth = 1
                 self.fired += 1
+                # process A has its own database session; here both share one, so A's `expire_all()`
+                # (re-read what parallel transactions committed) would expire B's objects and leave them
+                # unloadable after the commit: a no-op for A, everything in the shared session is current
+                expire_all = self.db_api.expire_all
+                self.db_api.expire_all = lambda: None
                 try:
                     wf_handler.check_and_complete(id)
                 finally:
+                    self.db_api.expire_all = expire_all
                     self.depth = 0
         return self.orig(id=id, cur_state=cur_state, state=state)
 
